@@ -27,7 +27,7 @@ REQUIRED_FEATURES = ["merge:single-pass", "merge:two-pass", "chunks:empty", "chu
 
 def plan(tier, seed):
     n = 16 if tier == "quick" else 48
-    per = 7 if tier == "quick" else 28
+    per = 7 if tier == "quick" else 60
     return [{"kind": "unordered", "sub": i, "cases": per} for i in range(n)]
 
 
